@@ -20,7 +20,7 @@ class P(Property):
     harness_bin = 'c16'
     rule = ('cases: vi.enc/vi.size for all values 0..2^16, +-2 around 2^6,2^14,2^30,2^62 and seeded random 62/64-bit values; '
             'vi.dec for all byte strings of length 0..2, every form (1,2,4,8 bytes, minimal and non-minimal) at every truncation length '
-            'and with trailing bytes, and the same encodings as non-contiguous buffers cut at every position (vi.decc); sid/sid.add for all four stream kinds x boundary indices x increments 0..usize::MAX. '
+            'and with trailing bytes, and the same encodings as non-contiguous buffers cut at every position (vi.decc); vi.try64/vi.tryus/vi.push (TryFrom<u64>, TryFrom<usize>, PushId::try_from) and vi.wvar/vi.gvar (the write_var/get_var wrappers of proto/coding.rs and proto/varint.rs, contiguous and cut) on the same value sets; sid/sid.add for all four stream kinds x boundary indices x increments 0..usize::MAX. '
             'non-trivial = distinct (family, form of first byte / value class by bit length, result kind) triples are NOT what is counted; '
             'counted are distinct cases whose input has at least one byte or a value > 0 (i.e. past the empty-input decision)')
 
@@ -42,6 +42,16 @@ class P(Property):
         for x in sorted(edge):
             out.append('vi.enc %d' % x)
             out.append('vi.size %d' % x)
+        # every other checked constructor, and the write_var/get_var wrappers h3's own code calls
+        for x in sorted(edge)[:3000 if tier == 'quick' else 100000] + [2 ** 62 - 1, 2 ** 62, 2 ** 62 + 1, 2 ** 63, U64 - 1]:
+            out.append('vi.try64 %d' % x)
+            out.append('vi.tryus %d' % x)
+            out.append('vi.push %d' % x)
+            out.append('vi.wvar c %d' % x)
+            out.append('vi.wvar v %d' % x)
+        for x in list(range(0, 300)) + [16383, 16384, 16385, 2 ** 30 - 1, 2 ** 30, 2 ** 32, 2 ** 32 + 1]:
+            out.append('vi.wvar c %d' % x)
+            out.append('vi.wvar v %d' % x)
         for b in range(256):
             out.append('vi.esz %d' % b)
         # decode: all strings of length 0..2
@@ -73,6 +83,13 @@ class P(Property):
                     # truncated and split
                     for t in range(2, l):
                         out.append('vi.decc %s.%s' % (e[:1].hex(), e[1:t].hex()))
+                    # the same through get_var (both trait copies), contiguous and cut
+                    out.append('vi.gvar c %s' % e.hex())
+                    out.append('vi.gvar v %s' % e.hex())
+                    for i in range(1, n):
+                        out.append('vi.gvar %s %s.%s' % ('c' if (i + x) % 2 else 'v', e[:i].hex(), e[i:].hex()))
+                    for t in range(0, l):
+                        out.append('vi.gvar c %s' % (e[:t].hex() or '-'))
         nr = 3000 if tier == 'quick' else 300000
         for _ in range(nr):
             n = rng.randint(3, 12)
@@ -98,7 +115,7 @@ class P(Property):
         # the integer carried by UnexpectedEnd and the buffer position after a failed decode are not
         # part of the property: a truncated encoding must be *reported as such*
         w = out.split()
-        if case.startswith('vi.dec') and w and w[0] == 'err':  # vi.dec and vi.decc
+        if (case.startswith('vi.dec') or case.startswith('vi.gvar')) and w and w[0] == 'err':
             return 'err'
         if w and w[0] == 'panic':
             return 'panic'
